@@ -39,10 +39,12 @@ type cropPrior struct {
 	name   string
 	state  *hermes.VerifCropState
 	repeat bool
+	pos    int // 0 first entry, 1 second entry equal to the pre-crop entry, 2 third entry after another crop
 }
 
 func c13Priors() []cropPrior {
-	return []cropPrior{{"fresh", nil, false}, {"after-other-crop", junkCropState(), false}, {"permanent-repeat", junkCropState(), true}}
+	return []cropPrior{{"fresh", nil, false, 0}, {"after-other-crop", junkCropState(), false, 0}, {"permanent-repeat", junkCropState(), true, 0},
+		{"second-entry-equals-pre-crop", junkCropState(), false, 1}, {"third-entry-after-other-crop", junkCropState(), false, 2}}
 }
 
 // compareCropDumps reports differences of two complete state dumps (every field, bit-wise).
@@ -98,7 +100,7 @@ func c13CropFiles(c *vh.Ctx) {
 		for _, pr := range priors {
 			c.Eval()
 			c.Nontrivial(base + "/" + pr.name)
-			dc := env.readClassic(classic, pr.state, pr.repeat)
+			dc := env.readClassic(classic, pr.state, pr.repeat, pr.pos)
 			replay := map[string]interface{}{"classic": classic, "prior": pr.name, "how": "ReadCropParamClassic vs ReadCropParamYml from the same prior state (hermes.VerifCropDump)"}
 			if variant {
 				replay["classic_text"] = strings.Join(lines, "\n")
@@ -115,7 +117,7 @@ func c13CropFiles(c *vh.Ctx) {
 				c.Count("cropfile:tokeniser-failed")
 			}
 			if ymlShipped != "" {
-				ds := env.readYml(ymlShipped, pr.state, pr.repeat)
+				ds := env.readYml(ymlShipped, pr.state, pr.repeat, pr.pos)
 				compareCropDumps(c, "cropfile:"+label+":shipped-yml", fmt.Sprintf("%s vs shipped %s.yml (prior state %s)", base, base, pr.name), &dc, &ds, replay)
 				if y, err := hermes.ReadCropParamFromFile(ymlShipped); err == nil {
 					ycases = append(ycases, fmt.Sprintf("cropparam.yml %d %s %s", b2iFmt(pr.repeat), stateLine(priorState), ymlLine(&y)))
@@ -124,7 +126,7 @@ func c13CropFiles(c *vh.Ctx) {
 				}
 			}
 			if convOK {
-				dv := env.readYml(ymlConv, pr.state, pr.repeat)
+				dv := env.readYml(ymlConv, pr.state, pr.repeat, pr.pos)
 				sig := "cropfile:" + label + ":converted-yml"
 				compareCropDumps(c, sig, fmt.Sprintf("%s vs the YAML the converter writes for it (prior state %s)", base, pr.name), &dc, &dv, replay)
 				if y, err := hermes.ReadCropParamFromFile(ymlConv); err == nil {
@@ -150,7 +152,7 @@ func c13CropFiles(c *vh.Ctx) {
 		}
 		doFile(f, yml, filepath.Base(f), false)
 	}
-	c.Sample(map[string]interface{}{"crop_files": len(files), "priors": []string{"fresh", "after-other-crop", "permanent-repeat"}})
+	c.Sample(map[string]interface{}{"crop_files": len(files), "priors": []string{"fresh", "after-other-crop", "permanent-repeat", "second-entry-equals-pre-crop", "third-entry-after-other-crop"}})
 
 	// deterministic witness: the shipped sugar-beet file with the optional token "org=S4" blanked,
 	// read after the shipped sugar-beet file (SubOrgan = 4 in the prior state)
@@ -163,7 +165,7 @@ func c13CropFiles(c *vh.Ctx) {
 			os.WriteFile(wp, []byte(strings.Join(lines, "\n")+"\n"), 0o644)
 			after := env.readClassic(zr, nil, false)
 			saved := priors
-			priors = []cropPrior{{"after-shipped-PARAM.ZR", &after, false}}
+			priors = []cropPrior{{"after-shipped-PARAM.ZR", &after, false, 0}}
 			doFile(wp, "", "variant:ngefkt5-without-org-token", true)
 			priors = saved
 		}
@@ -511,6 +513,30 @@ func c13Measure(c *vh.Ctx) {
 			wa[i] = vh.RoundTo(r.Uni(0.05, 1), 3)
 		}
 		full := r.Chance(0.8) // all 15 columns, or only the 9 mandatory ones
+		// a CSV file may carry any subset of the six optional deep-layer columns (they are found by their header names);
+		// the text file of the same content has zeros in the absent ones
+		var present [6]bool // NM9-12 NM12-15 NM15-20 W9-12 W12-15 W15-20
+		subset := false
+		if full && r.Chance(0.3) {
+			subset = true
+			any, all := false, true
+			for i := range present {
+				present[i] = r.Chance(0.5)
+				any = any || present[i]
+				all = all && present[i]
+			}
+			if !any || all {
+				present = [6]bool{false, false, false, true, true, true} // mineral N measured to 90 cm only, water for all depth classes
+			}
+			for i := 0; i < 3; i++ {
+				if !present[i] {
+					nm[3+i] = 0
+				}
+				if !present[3+i] {
+					wa[3+i] = 0
+				}
+			}
+		}
 		fident := "ALLE"
 		idClass := "ALLE"
 		if r.Chance(0.3) {
@@ -522,6 +548,7 @@ func c13Measure(c *vh.Ctx) {
 		if k == 0 {
 			// deterministic witness: nine mandatory columns only, numeric plot id, layers below 90 cm
 			nl, full, fident, idClass = 12, false, "001", "numeric-id"
+			subset = false
 			w, wmin, cn0 = w[:0], wmin[:0], cn0[:0]
 			for i := 0; i < nl; i++ {
 				wmin, w, cn0 = append(wmin, 0.1), append(w, 0.3), append(cn0, 5)
@@ -540,6 +567,19 @@ func c13Measure(c *vh.Ctx) {
 				fmt.Fprintf(&txt, "%-9s %s %04d %04d %04d %s %.3f %.3f %.3f\n", id, d, nm[0], nm[1], nm[2], mode, wa[0], wa[1], wa[2])
 			}
 			switch {
+			case subset:
+				fmt.Fprintf(&csv, "%s,%s,%04d,%04d,%04d,%s,%.3f,%.3f,%.3f", id, d, nm[0], nm[1], nm[2], mode, wa[0], wa[1], wa[2])
+				for i := 0; i < 3; i++ {
+					if present[i] {
+						fmt.Fprintf(&csv, ",%04d", nm[3+i])
+					}
+				}
+				for i := 3; i < 6; i++ {
+					if present[i] {
+						fmt.Fprintf(&csv, ",%.3f", wa[i])
+					}
+				}
+				csv.WriteString("\n")
 			case full && hs == 0:
 				fmt.Fprintf(&csv, "%s,%s,%04d,%04d,%04d,%s,%.3f,%.3f,%.3f,%04d,%04d,%04d,%.3f,%.3f,%.3f\n", id, d, nm[0], nm[1], nm[2], mode, wa[0], wa[1], wa[2], nm[3], nm[4], nm[5], wa[3], wa[4], wa[5])
 			case full:
@@ -551,6 +591,19 @@ func c13Measure(c *vh.Ctx) {
 			}
 		}
 		switch {
+		case subset:
+			names := [2][6]string{{"NM9-12", "NM12-15", "NM15-20", "W9-12", "W12-15", "W15-20"}, {"Nmin9-12", "Nmin12-15", "Nmin15-20", "Water9-12", "Water12-15", "Water15-20"}}
+			if hs == 0 {
+				csv.WriteString("Plot_ID,Date,Nm03,Nm36,Nm69,M,W0_3,W3_6,W6_9")
+			} else {
+				csv.WriteString("Id,Date,Nmin0-3,Nmin3-6,Nmin6-9,M,Water0-3,Water3-6,Water6-9")
+			}
+			for i := 0; i < 6; i++ {
+				if present[i] {
+					csv.WriteString("," + names[hs][i])
+				}
+			}
+			csv.WriteString("\n")
 		case full && hs == 0:
 			csv.WriteString("Plot_ID,Date,Nm03,Nm36,Nm69,M,W0_3,W3_6,W6_9,NM9-12,NM12-15,NM15-20,W9-12,W12-15,W15-20\n")
 		case full:
@@ -578,6 +631,12 @@ func c13Measure(c *vh.Ctx) {
 		cols := "15-columns"
 		if !full {
 			cols = "9-columns"
+		}
+		if subset {
+			cols = "optional-subset"
+			if !present[0] && !present[1] && !present[2] {
+				cols = "optional-subset:water-only"
+			}
 		}
 		c.Count("measure:" + cols + ":" + idClass + ":mode" + mode)
 		replay := map[string]interface{}{"txt": txt.String(), "csv": csv.String(), "id": fident, "layers": nl, "W": w, "WMIN": wmin, "CN0": cn0}
